@@ -43,6 +43,7 @@ type specEnv struct {
 	args    []sval // $0..$n for site clauses
 	letDepth int
 	quant   int
+	loopEntry *State
 }
 
 type specErr string
@@ -60,6 +61,9 @@ var (
 
 func (fr *Frame) evalClause(c *Clause, st *State, extra map[string]binding) Term {
 	env := fr.specEnvFor(st)
+	if fr.inLoopHdr != nil {
+		env.loopEntry = fr.loopEntries[fr.inLoopHdr]
+	}
 	for k, v := range extra {
 		env.vars[k] = v
 	}
@@ -765,6 +769,14 @@ func (env *specEnv) evalCall(c *ECall) sval {
 			}
 			sub := *env
 			sub.st = env.old
+			v := sub.eval(c.Args[0])
+			return sval{t: sub.rv(v), typ: v.typ}
+		case "loopentry":
+			if env.loopEntry == nil {
+				env.fail("loopentry() is only available in loop invariants")
+			}
+			sub := *env
+			sub.st = env.loopEntry
 			v := sub.eval(c.Args[0])
 			return sval{t: sub.rv(v), typ: v.typ}
 		case "len":
